@@ -11,7 +11,7 @@
      port   1..5 digits, optional
      scheme omitted (udp) or one of scheme_table: udp tcp tls https http h3 quic doq tcp+pipeline tls+pipeline
      path   with an explicit scheme: nothing or anything starting with '/', '?' or '#' *)
-From Mos Require Import Base.Prelude Net.Addr Net.TlsCfg Net.AddrProofs.
+From Mos Require Import Base.Prelude Net.Addr Net.TlsCfg Net.AddrProofs Net.UpCfg Net.UpCfgProofs.
 From Coq Require Import String Ascii.
 
 Definition s2l (s : string) : list N := map N_of_ascii (list_ascii_of_string s).
@@ -237,6 +237,136 @@ Theorem C17_tls_config_pools : forall o rc,
                (if o_verify_client o then Some ConfiguredCA else None)).
 Proof. exact tls_config_pools. Qed.
 Print Assumptions C17_tls_config_pools.
+
+(* --- the ROUTER's mapping: upstream config entry -> upstream (round 3) ------------------------------------ *)
+(* Net/UpCfg.v models router.initUpstream + NewUpstream:  {tag, addr, dial_addr, tls{ca, cert/key,
+   insecure_skip_verify}}  ->  upstream.Opt{DialAddr, TLSConfig}  ->  (endpoint, the tls.Config of the handshakes).
+   [scheme_spelling st k]: the lower-cased text of [st] is one of the ten scheme texts (url.Parse lower-cases the
+   scheme, so "TLS", "Tls+Pipeline", "DoQ", "H3" ... are all accepted). *)
+
+(* The letter case of the scheme is immaterial to NewUpstream: every theorem above carries over to every spelling. *)
+Theorem C17_scheme_case_insensitive : forall st k h p path d,
+  scheme_spelling st k -> wf_host h = true -> wf_port_opt p = true -> wf_path path = true ->
+  endpoint_of (url_of (Some st) h p path) d = endpoint_of (url_of (Some (map to_lower st)) h p path) d /\
+  endpoint_of (url_of (Some st) h p path) d =
+    Ok (endpoint_core (fst (fst k)) (snd (fst k)) (snd k) (authority h p) d).
+Proof.
+  intros st k h p path d Hs W Wp Wpath.
+  split; [exact (scheme_case_insensitive st k h p path d Hs W Wp Wpath)
+         |exact (endpoint_of_spelling st k h p path d Hs W Wp Wpath)].
+Qed.
+Print Assumptions C17_scheme_case_insensitive.
+
+(* For ANY config entry the router accepts: dial_addr reaches NewUpstream unchanged, a TLS based transport gets
+   exactly makeTlsConfig(entry.tls) — verification flag, root pool (configured ca alone, or system roots when none),
+   client certificate — and a plain transport gets no tls.Config. *)
+Theorem C17_upstream_config_mapping : forall c u,
+  upc_init_upstream c = Ok u ->
+  endpoint_of (upc_addr c) (upc_dial_addr c) = Ok (uu_ep u) /\
+  (uses_tls (ep_scheme (uu_ep u)) = false -> uu_tls u = None) /\
+  (uses_tls (ep_scheme (uu_ep u)) = true ->
+     exists t, uu_tls u = Some t /\ make_tls_config (upc_tls c) false = Ok t /\
+       c_insecure t = o_insecure (upc_tls c) /\
+       c_roots t = (if o_ca (upc_tls c) then ConfiguredCA else SystemRoots) /\
+       c_has_cert t = o_cert_key (upc_tls c)).
+Proof. exact upc_mapping. Qed.
+Print Assumptions C17_upstream_config_mapping.
+
+(* For EVERY spelling of EVERY TLS based scheme (tls, tls+pipeline, https, h3, quic, doq; any letter case) x every
+   address of the grammar x ANY dial_addr x every TLS option set: an exchange through the upstream the router builds
+   proceeds iff the server presents a certificate and either insecure_skip_verify is set or the certificate chains
+   to exactly the configured CA (system roots iff none is configured), is time-valid and matches the URL host. *)
+Theorem C17_upstream_every_tls_spelling : forall (cert : Type) (chains_to : ca_pool -> cert -> bool)
+    (name_matches : cert -> list N -> bool) (time_valid : cert -> bool) st k h p path tag da o peer,
+  scheme_spelling st k -> uses_tls (fst (fst k)) = true ->
+  wf_path path = true -> wf_host h = true -> wf_port_opt p = true ->
+  tag <> [] -> (o_verify_client o = true -> o_ca o = true) ->
+  upc_exchange_ok cert chains_to name_matches time_valid
+    {| upc_tag := tag; upc_addr := url_of (Some st) h p path; upc_dial_addr := da; upc_tls := o |} peer =
+  match peer with
+  | None => false
+  | Some c => o_insecure o ||
+              (chains_to (if o_ca o then ConfiguredCA else SystemRoots) c && time_valid c &&
+               name_matches c (host_name h))
+  end.
+Proof. exact upc_every_tls_spelling. Qed.
+Print Assumptions C17_upstream_every_tls_spelling.
+
+(* ... and the plain transports (udp, tcp, tcp+pipeline, http) perform no authentication whatever the TLS options *)
+Theorem C17_upstream_plain_spelling : forall (cert : Type) (chains_to : ca_pool -> cert -> bool)
+    (name_matches : cert -> list N -> bool) (time_valid : cert -> bool) st k h p path tag da o peer,
+  scheme_spelling st k -> uses_tls (fst (fst k)) = false ->
+  wf_path path = true -> wf_host h = true -> wf_port_opt p = true ->
+  tag <> [] -> (o_verify_client o = true -> o_ca o = true) ->
+  upc_exchange_ok cert chains_to name_matches time_valid
+    {| upc_tag := tag; upc_addr := url_of (Some st) h p path; upc_dial_addr := da; upc_tls := o |} peer = true.
+Proof. exact upc_plain_spelling. Qed.
+Print Assumptions C17_upstream_plain_spelling.
+
+(* dial_addr of the entry reaches EVERY socket of the upstream unchanged (default port added when it has none), for
+   every spelling of every scheme; the server name still derives from the URL host. *)
+Theorem C17_upstream_dial_addr : forall st k h p path tag dh dpo o,
+  scheme_spelling st k -> wf_path path = true -> wf_host h = true -> wf_port_opt p = true ->
+  wf_host dh = true -> wf_port_opt dpo = true ->
+  tag <> [] -> (o_verify_client o = true -> o_ca o = true) ->
+  let sc := fst (fst k) in let h3 := snd k in
+  let target := join_host_port (host_name dh) (port_or_default sc dpo) in
+  exists u,
+    upc_init_upstream {| upc_tag := tag; upc_addr := url_of (Some st) h p path;
+                         upc_dial_addr := dial_text dh dpo; upc_tls := o |} = Ok u /\
+    ep_dial (uu_ep u) = target /\
+    In (expected_net sc h3, target) (ep_sockets (uu_ep u)) /\
+    (forall s, In s (ep_sockets (uu_ep u)) -> snd s = target) /\
+    ep_sni (uu_ep u) = (if uses_tls sc then Some (host_name h) else None).
+Proof. exact upc_dial_addr_override. Qed.
+Print Assumptions C17_upstream_dial_addr.
+
+(* without dial_addr every socket goes to the host and port of addr (or the scheme's default port) *)
+Theorem C17_upstream_no_dial_addr : forall st k h p path tag o,
+  scheme_spelling st k -> wf_path path = true -> wf_host h = true -> wf_port_opt p = true ->
+  tag <> [] -> (o_verify_client o = true -> o_ca o = true) ->
+  let sc := fst (fst k) in let h3 := snd k in
+  let target := join_host_port (host_name h) (port_or_default sc p) in
+  exists u,
+    upc_init_upstream {| upc_tag := tag; upc_addr := url_of (Some st) h p path;
+                         upc_dial_addr := []; upc_tls := o |} = Ok u /\
+    ep_dial (uu_ep u) = target /\
+    In (expected_net sc h3, target) (ep_sockets (uu_ep u)) /\
+    (forall s, In s (ep_sockets (uu_ep u)) -> snd s = target).
+Proof. exact upc_no_dial_addr. Qed.
+Print Assumptions C17_upstream_no_dial_addr.
+
+(* non-vacuity, both polarities, on the instance the upcfg kind runs (certificate kinds of the harness) *)
+Example C17_example_upcfg :
+  let o ca ck ins := {| o_ca := ca; o_cert_key := ck; o_insecure := ins; o_verify_client := false |} in
+  scheme_spelling (s2l "TLS+Pipeline") (STls, true, false) /\ scheme_spelling (s2l "DoQ") (SQuic, false, false) /\
+  scheme_spelling (s2l "H3") (SHttps, false, true) /\ ~ scheme_spelling (s2l "tls+") (STls, false, false) /\
+  (* ca configured on a tls+pipeline upstream: a certificate of the configured ca is accepted, one that chains to
+     a system root only is refused *)
+  upc_case (s2l "tls+pipeline://upc17.test") (s2l "127.0.0.1:853") (o true false false) (Some CValid) false =
+    Some (true, true, s2l "127.0.0.1:853") /\
+  upc_case (s2l "tls+pipeline://upc17.test") (s2l "127.0.0.1:853") (o true false false) (Some CSysRoot) false =
+    Some (false, true, s2l "127.0.0.1:853") /\
+  upc_case (s2l "DOQ://upc17.test") (s2l "[::1]:8853") (o true false false) (Some CSysRoot) false =
+    Some (false, true, s2l "[::1]:8853") /\
+  upc_case (s2l "Tls://127.0.0.1:8853") [] (o false false false) (Some CSysRoot) false =
+    Some (true, true, s2l "127.0.0.1:8853") /\
+  upc_case (s2l "QUIC://127.0.0.1:8853") [] (o true false true) (Some CSelfSigned) false =
+    Some (true, true, s2l "127.0.0.1:8853") /\
+  (* the client certificate of the entry *)
+  upc_case (s2l "tls+pipeline://upc17.test") (s2l "127.0.0.1:853") (o true true false) (Some CValid) true =
+    Some (true, true, s2l "127.0.0.1:853") /\
+  upc_case (s2l "tls+pipeline://upc17.test") (s2l "127.0.0.1:853") (o true false false) (Some CValid) true =
+    Some (false, true, s2l "127.0.0.1:853") /\
+  (* plain transport; unknown scheme; missing addr *)
+  upc_case (s2l "TCP+pipeline://upc17.test") (s2l "127.0.0.1:53") (o true false false) None false =
+    Some (true, false, s2l "127.0.0.1:53") /\
+  upc_case (s2l "tls+pipe://upc17.test") [] (o true false false) None false = None /\
+  upc_case [] [] (o false false false) None false = None.
+Proof.
+  cbv zeta. repeat split; try (vm_compute; tauto); try reflexivity.
+  intros H. vm_compute in H. repeat (destruct H as [H|H]; [discriminate H|]). exact H.
+Qed.
 
 (* --- non-vacuity ---------------------------------------------------------------------------------------- *)
 Definition show (r : res endpoint) : option (netw * list N * option (list N) * option (list N)) :=
